@@ -20,7 +20,8 @@ from vf import core, recgen
 from vf import streamcases as sc
 
 THEOREMS = ["C04_truncated_encoding_rejected", "C04_cut_frames", "C04_prefix_of_full_run", "C04_cut_written_stream",
-            "C04_cut_inside_header", "C04_boundary_is_clean", "C04_failed_write_leaves_prefix"]
+            "C04_cut_inside_header", "C04_boundary_is_clean", "C04_failed_write_leaves_prefix", "C04_lost_record_frame",
+            "C04_lost_descriptor_frame_partial", "C04_lost_descriptor_coincident_refuted", "C04_fresh_satisfiable"]
 
 HEADER = sc.HEADER + """
 Definition outcome_eqb (a b : outcome) : bool := match a, b with CleanEOF, CleanEOF | Raised, Raised => true | _, _ => false end.
